@@ -450,16 +450,17 @@ func (gsr *GoStructRegistryType) GetOrCreateSliceType(rt *RegisteredType) *Regis
 		Q("type named '%v' already registered, re-using the type", sliceName)
 	} else {
 		Q("registering new slice type '%v'", sliceName)
-		// not every registered type has a Go type (hash has none): the
-		// slice type then exists by name only, reflect.SliceOf(nil) panics.
+		// not every registered type has a Go type (hash has none), and
+		// reflect.SliceOf(nil) panics: such elements are held as interface
+		// values. (The factory must make a value: the registry scans of
+		// fillHashHelper and CallGoMethodFunction reflect on every entry.)
 		var derivedType reflect.Type
 		if rt.TypeCache != nil {
 			derivedType = reflect.SliceOf(rt.TypeCache)
+		} else {
+			derivedType = reflect.TypeOf([]interface{}(nil))
 		}
 		sliceRt = NewRegisteredType(func(env *Zlisp, h *SexpHash) (interface{}, error) {
-			if derivedType == nil {
-				return nil, nil
-			}
 			return reflect.MakeSlice(derivedType, 0, 0), nil
 		})
 		sliceRt.DisplayAs = fmt.Sprintf("(%s)", sliceName)
